@@ -1303,3 +1303,52 @@ func (markCodecF) Append(data []byte, ptr unsafe.Pointer, tag []byte) []byte {
 // the same instance can influence a later result" for the interning tables
 func H10h_InternHistory() { H19_History() }
 func H10h_InternLong()    { H19_Long() }
+
+// H03t_TimeExtra: a time body written by a newer writer carries fields the
+// reader does not know (a varint, a length-delimited one, fixed 32/64, before,
+// between and after the known ones): they are skipped exactly and the time
+// and the fields around it decode as if they were not there.
+func H03t_TimeExtra() {
+	p := newPlenc(cfgDef)
+	a := smallSym("A")
+	b := vrt.String("B", 1)
+	sec, ns := vrt.I64("sec"), vrt.I64("nsec")
+	vrt.Assume(vrt.And(ns >= 0, ns < 1000000000))
+	vrt.Assume(vrt.And(sec >= -62135596800, sec < 253402300800))
+	x := vrt.U64("x")
+	extra := func(buf []byte, k int) []byte {
+		switch k {
+		case 0:
+			return refVarint(refTag(buf, 0, 3), x)
+		case 1:
+			return refLenField(buf, 4, []byte{byte(x), 0x80, 0xFF})
+		case 2:
+			return refLE64(refTag(buf, 1, 5), x)
+		default:
+			return refLE32(refTag(buf, 5, 6), uint32(x))
+		}
+	}
+	k := vrt.Choice("extra", 4)
+	var body []byte
+	switch vrt.Choice("where", 3) {
+	case 0:
+		body = extra(body, k)
+		body = refVarint(refTag(body, 0, 1), refZigZag(sec))
+		body = refVarint(refTag(body, 0, 2), refZigZag(ns))
+	case 1:
+		body = refVarint(refTag(body, 0, 1), refZigZag(sec))
+		body = extra(body, k)
+		body = refVarint(refTag(body, 0, 2), refZigZag(ns))
+	default:
+		body = refVarint(refTag(body, 0, 1), refZigZag(sec))
+		body = refVarint(refTag(body, 0, 2), refZigZag(ns))
+		body = extra(body, k)
+	}
+	data := refVarint(refTag(nil, 0, 1), refZigZag(int64(a)))
+	data = refLenField(data, 2, body)
+	data = refLenField(data, 3, []byte(b))
+	var out cat.KxTime
+	vrt.Assert("decodes without error", p.Unmarshal(data, &out) == nil)
+	vrt.Assert("fields around the time", vrt.And(out.A == a, out.B == b))
+	vrt.Assert("the time itself", vrt.And(out.X.Unix() == sec, int64(out.X.Nanosecond()) == ns))
+}
